@@ -1,6 +1,6 @@
 /-
 C11 — translation of the exon / intron counting model (Model/FeatureCounts.lean, C13): annotated features, the row keys
-`(chr, start, end, strand)`, counters and dumped rows.  Core Lean only.
+`(chr, start, end)`, counters and dumped rows.  Core Lean only.
 -/
 import IsoVerif.Model.FeatureCounts
 import IsoVerif.Model.C11Symmetry
@@ -12,8 +12,8 @@ def shiftFI (k : Int) (f : C13.FeatureInfo) : C13.FeatureInfo := { f with start 
 
 def shiftIsoFeats (k : Int) (t : C13.IsoformFeatures) : C13.IsoformFeatures := { t with feats := shiftL k t.feats }
 
-/-- row key of the counters (after fix a8ffd5c): `(chr, start, end, strand)` -/
-def shiftKey (k : Int) (c : C13.CoordKey) : C13.CoordKey := (c.1, c.2.1 + k, c.2.2.1 + k, c.2.2.2)
+/-- row key of the counters (after the candidate repair of C13 finding G1): `(chr, start, end)` -/
+def shiftKey (k : Int) (c : C13.CoordKey) : C13.CoordKey := (c.1, c.2.1 + k, c.2.2 + k)
 
 def shiftCounter (k : Int) (st : C13.PCounter C13.CoordKey) : C13.PCounter C13.CoordKey :=
   { st with incl := st.incl.map (fun p => ((shiftKey k p.1.1, p.1.2), p.2)),
